@@ -32,10 +32,12 @@ type injector struct {
 	// last record, when the caller knows how many records the commit has); n is ignored then
 	afterWrites int
 	writes      int
+	// onlySyncs: only sync events are counted (fail the n-th sync whatever else happens in between)
+	onlySyncs bool
 }
 
 func (in *injector) onEvent(ev *FSEvent) (bool, int, error) {
-	if !in.armed || (in.noSync && ev.Op == "sync") || (in.onlyWrites && ev.Op != "write") {
+	if !in.armed || (in.noSync && ev.Op == "sync") || (in.onlyWrites && ev.Op != "write") || (in.onlySyncs && ev.Op != "sync") {
 		return false, 0, nil
 	}
 	if in.afterWrites > 0 {
